@@ -153,10 +153,15 @@ pub trait BlsSignatureProof:
     ) -> BlsResult<()> {
         if let Some(tt) = timeout_ms {
             let now = SystemTime::now();
-            let since = UNIX_EPOCH + Duration::from_millis(t);
-            let elapsed = now.duration_since(since).unwrap().as_millis() as u64;
-            if elapsed > tt {
-                return Err(BlsError::InvalidProof);
+            // a timestamp that cannot be represented or that lies in the future
+            // is not within any timeout
+            let elapsed = UNIX_EPOCH
+                .checked_add(Duration::from_millis(t))
+                .and_then(|since| now.duration_since(since).ok())
+                .map(|d| d.as_millis() as u64);
+            match elapsed {
+                Some(elapsed) if elapsed <= tt => {}
+                _ => return Err(BlsError::InvalidProof),
             }
         }
 
